@@ -127,6 +127,14 @@ def oracle(sc, out):
         if o == "bad-op":
             return "harness rejected op " + op
         kv = kvs(op)
+        if ws[0] == "race":
+            okv = kvs(o)
+            if okv.get("pub_after_unsub") == "1":
+                return ("race: a publication that passed the subscribed check was buffered by the per-channel "
+                        "writer and delivered after the unsubscribe reply")
+            if okv.get("unsub_reply") != "1":
+                return "race: no unsubscribe reply"
+            continue
         if ws[0] == "reset":
             writers, chmap, item_w, delivered, handle = {}, {}, {}, set(), None
             continue
@@ -216,12 +224,18 @@ def oracle(sc, out):
 
 
 def signature(sc, msg):
-    return {"oracle": re.sub(r"[\d\[\], ]+", "N", msg)[:70]}
+    return {"oracle": re.sub(r"[\d\[\], ]+", "N", msg)[:70], "via": sc[0].split()[0] if len(sc) == 1 else "ops"}
 
 
 def split_scenarios(ops):
     scs, cur = [], []
     for op in ops:
+        if op.split()[0] == "race":
+            if cur:
+                scs.append(cur)
+            scs.append([op])
+            cur = []
+            continue
         if op.split()[0] == "reset" and cur:
             scs.append(cur)
             cur = []
@@ -248,14 +262,31 @@ def run(ctx):
                       no_input=True)
         return
     here = os.path.dirname(__file__)
+    # re-derive the known findings from their stored replays (KNOWN-FINDING only if they still reproduce)
+    fpath = os.path.join(here, "findings.json")
+    if os.path.exists(fpath) and not ctx.replay:
+        for f in json.load(open(fpath)).get("findings", []):
+            fops = f["replay"]["ops"]
+            fo = ctx.go_run(binary, "TestVerifC13", fops, timeout=120)
+            fo = fo + ["<missing>"] * (len(fops) - len(fo))
+            msg = oracle(fops, fo)
+            if msg:
+                ctx.violation("property", msg, signature=signature(fops, msg), replay={"ops": fops, "impl": fo})
+                ctx.count("known-finding-reproduced")
+            else:
+                ctx.notes.append(f"finding {f['id']} no longer reproduces on this tree")
     if ctx.replay:
         scs = split_scenarios(json.load(open(ctx.replay)).get("ops", []))
     else:
         corpus = [l.strip() for l in open(os.path.join(here, "corpus.ops")) if l.strip() and not l.startswith("#")]
         scs = split_scenarios(corpus) + [gen_scenario(ctx.rng) for _ in range(ctx.scale(2500, 80000))]
+        scs += [[f"race {d}"] for d in (5, 10, 50)]
     ops = [op for s in scs for op in s]
-    impl = ctx.go_run(binary, "TestVerifC13", ops)
+    ctx.log("harness built")
+    impl = ctx.go_run(binary, "TestVerifC13", ops, timeout=ctx.scale(300, 1500))
+    ctx.log(f"implementation ran {len(impl)}/{len(ops)} lines")
     model = ctx.lean_run(ops)
+    ctx.log("model ran")
     if model is None:
         proofs_ok = False
         model = []
@@ -272,6 +303,10 @@ def run(ctx):
             if o.startswith("out=") and o != "out=-":
                 ctx.count("flush:" + op.split()[0])
         msg = oracle(s, out)
+        if msg and ctx._match_known(signature(s, msg)) is not None:
+            ctx.violation("property", msg, signature=signature(s, msg), replay={"ops": s, "impl": out})
+            ctx.count("known-finding-instances")
+            continue
         if msg:
             nviol += 1
             if nviol <= 3:
